@@ -171,3 +171,86 @@ impl TlsState {
         }
     }
 }
+
+// ---------------------------------------------------------------------------------------------
+// pcap files (classic format) for the analyzers' analyze_pcap entry points
+// ---------------------------------------------------------------------------------------------
+pub fn write_pcap(path: &std::path::Path, frames: &[&[u8]]) {
+    let mut out: Vec<u8> = vec![];
+    out.extend_from_slice(&0xa1b2c3d4u32.to_le_bytes());
+    out.extend_from_slice(&2u16.to_le_bytes());
+    out.extend_from_slice(&4u16.to_le_bytes());
+    out.extend_from_slice(&0i32.to_le_bytes());
+    out.extend_from_slice(&0u32.to_le_bytes());
+    out.extend_from_slice(&262144u32.to_le_bytes());
+    out.extend_from_slice(&1u32.to_le_bytes()); // LINKTYPE_ETHERNET (the analyzers sniff the framing themselves)
+    for (i, f) in frames.iter().enumerate() {
+        out.extend_from_slice(&(1_700_000_000u32 + i as u32).to_le_bytes());
+        out.extend_from_slice(&0u32.to_le_bytes());
+        out.extend_from_slice(&(f.len() as u32).to_le_bytes());
+        out.extend_from_slice(&(f.len() as u32).to_le_bytes());
+        out.extend_from_slice(f);
+    }
+    std::fs::write(path, out).expect("write pcap");
+}
+
+/// unique scratch file name for this thread
+pub fn scratch_file(tag: &str) -> std::path::PathBuf {
+    use std::sync::atomic::{AtomicU64, Ordering};
+    static N: AtomicU64 = AtomicU64::new(0);
+    let n = N.fetch_add(1, Ordering::Relaxed);
+    crate::engine::scratch_dir().join(format!("{}-{}-{}.pcap", tag, std::process::id(), n))
+}
+
+/// install the per-thread clock table of a packet list (TSval -> arrival ms)
+pub fn set_clock_table(pk: &[crate::gen::trace::Packet]) {
+    let mut m = std::collections::HashMap::new();
+    for p in pk {
+        if let Some(v) = p.tsval {
+            m.insert(v, p.at);
+        }
+    }
+    huginn_net_tcp::verif_hooks::set_thread_now_ms(None);
+    huginn_net_tcp::verif_hooks::set_thread_clock_table(Some(m));
+}
+pub fn clear_clock_table() {
+    huginn_net_tcp::verif_hooks::set_thread_clock_table(None);
+}
+
+// keyed renderings: (ordering key, rendering). The key names the unit whose results must keep their order.
+pub fn tcp_keyed(r: &huginn_net_tcp::TcpAnalysisResult) -> Vec<(String, String)> {
+    // the TCP pool shards by sender: key = source address
+    let src = r
+        .syn
+        .as_ref()
+        .map(|x| x.source.ip)
+        .or(r.syn_ack.as_ref().map(|x| x.source.ip))
+        .or(r.mtu.as_ref().map(|x| x.source.ip))
+        .or(r.client_uptime.as_ref().map(|x| x.source.ip))
+        .or(r.server_uptime.as_ref().map(|x| x.source.ip));
+    match src {
+        Some(s) => vec![(s.to_string(), tcp_result_strs(r).join(" || "))],
+        None => vec![],
+    }
+}
+pub fn http_keyed(r: &huginn_net_http::HttpAnalysisResult) -> Vec<(String, String)> {
+    let mut v = vec![];
+    let key = |a: std::net::IpAddr, ap: u16, b: std::net::IpAddr, bp: u16| {
+        let (x, y) = ((a, ap), (b, bp));
+        if x <= y {
+            format!("{:?}-{:?}", x, y)
+        } else {
+            format!("{:?}-{:?}", y, x)
+        }
+    };
+    if let Some(q) = &r.http_request {
+        v.push((key(q.source.ip, q.source.port, q.destination.ip, q.destination.port), http_req_str(q)));
+    }
+    if let Some(q) = &r.http_response {
+        v.push((key(q.source.ip, q.source.port, q.destination.ip, q.destination.port), http_resp_str(q)));
+    }
+    v
+}
+pub fn tls_keyed(r: &huginn_net_tls::TlsClientOutput) -> Vec<(String, String)> {
+    vec![(format!("{}:{}->{}:{}", r.source.ip, r.source.port, r.destination.ip, r.destination.port), tls_out_str(r))]
+}
